@@ -29,6 +29,8 @@ type OutSpec struct {
 	Kind string    `json:"kind"` // file | dir | bin
 	Path string    `json:"path"` // relative to the package directory
 	Tree []TreeEnt `json:"tree,omitempty"`
+	// Stash: the tree this output had while it was a directory (generator bookkeeping only)
+	Stash []TreeEnt `json:"stash,omitempty"`
 }
 
 func (o OutSpec) Decl() string {
